@@ -33,11 +33,13 @@ def run(tier, replay=None):
     with open(os.path.join(wd, 'G.tla'), 'w') as f:
         f.write('---- MODULE G ----\nEXTENDS ElementGen\n')
         f.write('GTypes == %s\n' % campaign.tset(types))
-        for nm, key in (('GSigma', 'sigma'), ('GMulti', 'multi'), ('GRare', 'rare')):
+        for nm, key in (('GSigma', 'sigma'), ('GMulti', 'multi'), ('GRare', 'rare'), ('GRem', 'rem')):
             f.write('%s == %s\n' % (nm, campaign.fun([(t, plans[t][key]) for t in types], campaign.tset)))
+        f.write('GRemAdds == %s\n' % campaign.fun([(t, plans[t]['remadds']) for t in types], str))
+        f.write('GStride == %s\n' % campaign.fun([(t, plans[t]['stride']) for t in types], str))
         f.write('GDepth == %s\n' % campaign.fun([(t, plans[t]['depth']) for t in types], str))
         f.write('GWord == %s\n====\n' % campaign.fun([(t, plans[t]['wordlen']) for t in types], str))
-    open(os.path.join(wd, 'G.cfg'), 'w').write(campaign.GEN_CFG % dict(chks='TRUE', families='"uniform"', maxpersym=2, maxrare=1,
+    open(os.path.join(wd, 'G.cfg'), 'w').write(campaign.GEN_CFG % dict(chks='TRUE', families='"uniform"', maxpersym=2, maxrare=1, planlen=8,
                                                ops=','.join('"%s"' % x for x in Pc['ops'])))
     g = tlc.run(os.path.join(wd, 'G.tla'), os.path.join(wd, 'G.cfg'), workers=1, timeout=1800, heap='3g')
     if not g['complete']:
@@ -110,9 +112,41 @@ def run(tier, replay=None):
                     divs.append(dict(key=key, cls='%s:%s:%s' % (clause, e['ta'], e['tb']), what=what, replay=dict(event=e)))
         return dict(divs=divs, counts=done[0][2], events=len(events), states=v['distinct'],
                     sample=[dict(ta=e['ta'], tb=e['tb'], sched=e['sched'], k=e['k'], obs=e['obs']) for e in events[1:2]])
+    # ---- value layer: the accept/reject vector of every typed slot, pristine vs. after everything else (both orders)
+    def vb(mode):
+        outp = os.path.join(wd, 'vb_%s.json' % mode)
+        q = subprocess.run([common.PY, '-W', 'ignore', '-B', os.path.join(common.VERIF, 'harness', 'value_battery.py'), mode, outp],
+                           env=common.impl_env(), stdout=subprocess.PIPE, stderr=subprocess.PIPE, timeout=3600)
+        if q.returncode != 0:
+            raise RuntimeError('value battery failed: ' + q.stderr.decode()[-2000:])
+        return json.load(open(outp))
     with ThreadPoolExecutor(max_workers=n) as ex:
+        vfut = [ex.submit(vb, m) for m in ('pristine', 'sorted', 'reversed')]
         results = [r for r in ex.map(one, range(n)) if r]
-    divs = [d for r in results for d in r['divs']]
+        vbs = {m: f.result() for m, f in zip(('pristine', 'sorted', 'reversed'), vfut)}
+    vevents = []
+    for mode in ('sorted', 'reversed'):
+        for st, dg in sorted(vbs[mode]['digests'].items()):
+            vevents.append(dict(op='vbattery', st=st, when=mode, digest=dg, ref=vbs['pristine']['digests'].get(st, '')))
+    vtrace = os.path.join(wd, 'vtrace.ndjson')
+    with open(vtrace, 'w') as f:
+        for e in vevents:
+            f.write(json.dumps(e) + '\n')
+    open(os.path.join(wd, 'PV.tla'), 'w').write('---- MODULE PV ----\nEXTENDS PairTrace\n====\n')
+    open(os.path.join(wd, 'PV.cfg'), 'w').write('SPECIFICATION Spec\nINVARIANT Done\nCHECK_DEADLOCK FALSE\n')
+    pv = tlc.run(os.path.join(wd, 'PV.tla'), os.path.join(wd, 'PV.cfg'), workers=1, timeout=1800, env={'TRACE_FILE': vtrace})
+    preps = tlc.reports(pv['out'])
+    pdone = [x for x in preps if x[0] == 'DONE']
+    if not pdone or pdone[0][1] != len(vevents) or not pv['complete']:
+        raise tlc.TLCError('PairTrace rejected the value-battery trace:\n' + pv['out'][-2000:])
+    vdivs = []
+    for x in preps:
+        if x[0] == 'V':
+            e = vevents[x[1] - 1]
+            vdivs.append(dict(key=['C13', 'C13_battery', 'values', e['st'], e['when']], cls='C13_battery:values:' + e['st'],
+                              what='slot of simple type %s accepts a different set of values after the other types were used (%s order) than in a pristine process' % (e['st'], e['when']),
+                              replay=dict(event=e)))
+    divs = [d for r in results for d in r['divs']] + vdivs
     steps = sum(r['counts']['steps'] for r in results)
     cov = dict(states=g['distinct'] + ig['distinct'] + sum(r['states'] for r in results), transitions=g['generated'] + ig['generated'] + steps,
                traces_validated_against_impl=len(pairs) * len(schedules), evaluations=steps,
@@ -122,7 +156,7 @@ def run(tier, replay=None):
                     'each of its steps exercises C13_solo and C13_frame; the probe battery is compared with a pristine process before and after each shard' % (
                         P['depth'], len(ts), P['N'], len(schedules)),
                pairs=len(pairs), interleavings=len(schedules), steps=steps, batteries=sum(r['counts']['batteries'] for r in results),
-               battery_digest=ref, types=ts, samples=[s for r in results for s in r['sample']][:4])
+               battery_digest=ref, types=ts, value_battery=dict(simple_types=len(vbs['pristine']['digests']), offers_per_slot=vbs['pristine']['offers'], orders=['sorted', 'reversed']), samples=[s for r in results for s in r['sample']][:4])
     if not os.environ.get('VERIF_KEEP'):
         shutil.rmtree(wd, ignore_errors=True)
     return common.conclude('C13', tier, divs, cov, t0, assumptions=[
